@@ -14,6 +14,7 @@ import z3
 
 from . import values as Vm
 
+z3.set_param('warning', False)
 RLIMIT = int(os.environ.get('PYVC_RLIMIT', '30000000'))
 TIMEOUT_MS = int(os.environ.get('PYVC_TIMEOUT_MS', '15000'))
 TIMEOUT2_MS = int(os.environ.get('PYVC_TIMEOUT2_MS', '4000'))
@@ -88,7 +89,10 @@ def check_roundtrip(smt2, seed=0, timeout=None):
     non-linear arithmetic, whose success depends on incidental ordering."""
     t0 = time.time()
     s = _mk_solver(True, seed, timeout)
-    s.add(z3.parse_smt2_string(smt2))
+    try:
+        s.add(z3.parse_smt2_string(smt2))
+    except z3.Z3Exception:
+        return 'unknown', time.time() - t0
     r = s.check()
     return str(r), time.time() - t0
 
